@@ -638,3 +638,156 @@ func init() {
 		g.pf("\n")
 	})
 }
+
+// ---------------------------------------------------------------------------------------------
+// rtmp (C04)
+//
+//	rtmp_WritePacket_skel       order of the calls in (*Protocol).WritePacket:
+//	    ("marshal","MarshalBinary") ("register","onPacketWriten") ("write","WriteMessage")
+//	    ("unregister_on_fail","onPacketWriteFailed")  -- the last one only when it is inside the
+//	    `if err = v.WriteMessage(m); err != nil { .. }` block
+//	rtmp_onPacketWriten_skel, rtmp_onPacketWriteFailed_skel, rtmp_parseAMFObject_tx_skel
+//	    accesses to v.input.transactions and operations on v.input.ltransactions in program
+//	    order: ("lock",..) ("unlock",..) ("map_store",..) ("map_load",..) ("map_delete",..);
+//	    a deferred Unlock is placed at the end of the function (literal) that defers it.
+func (g *gen) txScope(body *ast.BlockStmt) []skelEv {
+	var evs, deferred []skelEv
+	handled := map[ast.Node]bool{}
+	isTab := func(e ast.Expr) bool { return exprStr(e) == "v.input.transactions" }
+	ast.Inspect(body, func(n ast.Node) bool {
+		switch x := n.(type) {
+		case *ast.FuncLit:
+			evs = append(evs, g.txScope(x.Body)...)
+			return false
+		case *ast.DeferStmt:
+			if exprStr(x.Call.Fun) == "v.input.ltransactions.Unlock" {
+				deferred = append([]skelEv{{"unlock", "ltransactions"}}, deferred...)
+				return false
+			}
+		case *ast.CallExpr:
+			switch exprStr(x.Fun) {
+			case "v.input.ltransactions.Lock":
+				evs = append(evs, skelEv{"lock", "ltransactions"})
+			case "v.input.ltransactions.Unlock":
+				evs = append(evs, skelEv{"unlock", "ltransactions"})
+			case "delete":
+				if len(x.Args) == 2 && isTab(x.Args[0]) {
+					evs = append(evs, skelEv{"map_delete", "transactions"})
+					handled[x.Args[0]] = true
+				}
+			}
+		case *ast.AssignStmt:
+			for _, l := range x.Lhs {
+				if ie, ok := l.(*ast.IndexExpr); ok && isTab(ie.X) {
+					// the right-hand sides are evaluated first
+					for _, r := range x.Rhs {
+						ast.Inspect(r, func(m ast.Node) bool {
+							if ie2, ok := m.(*ast.IndexExpr); ok && isTab(ie2.X) {
+								evs = append(evs, skelEv{"map_load", "transactions"})
+								handled[ie2] = true
+							}
+							return true
+						})
+					}
+					evs = append(evs, skelEv{"map_store", "transactions"})
+					handled[ie] = true
+				}
+			}
+		case *ast.IndexExpr:
+			if isTab(x.X) && !handled[x] {
+				evs = append(evs, skelEv{"map_load", "transactions"})
+				handled[x] = true
+			}
+		case *ast.RangeStmt:
+			if isTab(x.X) {
+				evs = append(evs, skelEv{"map_range", "transactions"})
+			}
+		}
+		return true
+	})
+	return append(evs, deferred...)
+}
+
+func init() {
+	extraGens = append(extraGens, func(g *gen) {
+		if pkgTag(g.p) != "rtmp" {
+			return
+		}
+		g.pf("(* synchronisation skeletons (gen_skel.go) *)\n")
+		seen := map[string]bool{}
+		var others []skelEv // any other function touching the table
+		for _, fd := range g.funcDecls() {
+			if recvName(fd) != "Protocol" {
+				if fd.Body != nil && wsMentions(fd.Body, "transactions") {
+					others = append(others, skelEv{fd.Name.Name, "touches transactions"})
+				}
+				continue
+			}
+			switch fd.Name.Name {
+			case "WritePacket":
+				var evs []skelEv
+				var failBlocks []*ast.BlockStmt
+				ast.Inspect(fd.Body, func(n ast.Node) bool {
+					if ifs, ok := n.(*ast.IfStmt); ok && ifs.Init != nil && exprStr(ifs.Cond) == "err != nil" {
+						if as, ok := ifs.Init.(*ast.AssignStmt); ok && len(as.Rhs) == 1 && strings.HasPrefix(exprStr(as.Rhs[0]), "v.WriteMessage(") {
+							failBlocks = append(failBlocks, ifs.Body)
+						}
+					}
+					return true
+				})
+				inFail := func(n ast.Node) bool {
+					for _, b := range failBlocks {
+						if n.Pos() >= b.Pos() && n.End() <= b.End() {
+							return true
+						}
+					}
+					return false
+				}
+				ast.Inspect(fd.Body, func(n ast.Node) bool {
+					ce, ok := n.(*ast.CallExpr)
+					if !ok {
+						return true
+					}
+					switch exprStr(ce.Fun) {
+					case "pkt.MarshalBinary":
+						evs = append(evs, skelEv{"marshal", "MarshalBinary"})
+					case "v.onPacketWriten":
+						evs = append(evs, skelEv{"register", "onPacketWriten"})
+					case "v.WriteMessage":
+						evs = append(evs, skelEv{"write", "WriteMessage"})
+					case "v.onPacketWriteFailed":
+						if inFail(ce) {
+							evs = append(evs, skelEv{"unregister_on_fail", "onPacketWriteFailed"})
+						} else {
+							evs = append(evs, skelEv{"unregister", "onPacketWriteFailed"})
+						}
+					}
+					return true
+				})
+				if wsMentions(fd.Body, "transactions", "ltransactions") {
+					evs = append(evs, skelEv{"direct_table_access", "WritePacket"})
+				}
+				g.emitSkel("rtmp_WritePacket_skel", evs, true, "")
+				seen["WritePacket"] = true
+			case "onPacketWriten", "onPacketWriteFailed":
+				g.emitSkel("rtmp_"+fd.Name.Name+"_skel", g.txScope(fd.Body), true, "")
+				seen[fd.Name.Name] = true
+			case "parseAMFObject":
+				g.emitSkel("rtmp_parseAMFObject_tx_skel", g.txScope(fd.Body), true, "")
+				seen[fd.Name.Name] = true
+			default:
+				if wsMentions(fd.Body, "transactions") && fd.Name.Name != "NewProtocol" {
+					others = append(others, skelEv{"Protocol." + fd.Name.Name, "touches transactions"})
+				}
+			}
+		}
+		for n, nm := range map[string]string{"WritePacket": "rtmp_WritePacket_skel", "onPacketWriten": "rtmp_onPacketWriten_skel",
+			"onPacketWriteFailed": "rtmp_onPacketWriteFailed_skel", "parseAMFObject": "rtmp_parseAMFObject_tx_skel"} {
+			if !seen[n] {
+				g.emitSkel(nm, []skelEv{}, true, "") // absent function = empty skeleton (rejected or accepted by the model's predicate)
+			}
+		}
+		g.emitSkel("rtmp_transactions_other_sites", others, true, "")
+		g.pf("\n")
+	})
+}
